@@ -50,11 +50,11 @@ def family(kind, cfg):
         if cfg["dialect"]:
             opts["dialect"] = DOmit
         if cfg["aliases"]:
-            opts["aliases"] = {"a": "A", "n": "N"}
+            opts["aliases"] = {"a": "A", "n": "N", "x": "X"}
         ns["Config"] = type("Config", (BaseConfig,), opts)
     F = dataclasses.field
     if kind == "defaults":
-        fields = [("r", int), ("a", int, F(default=1)), ("s", str, F(default="x")), ("f", float, F(default=1.5)),
+        fields = [("r", int), ("x", int, F(default=7)), ("a", int, F(default=1)), ("s", str, F(default="x")), ("f", float, F(default=1.5)),
                   ("b", bool, F(default=False)), ("n", typing.Optional[int], F(default=None)),
                   ("d", datetime.date, F(default=datetime.date(2000, 1, 2))),
                   ("dt", datetime.datetime, F(default=datetime.datetime(2000, 1, 2, 3, 4))),
